@@ -30,6 +30,8 @@ Record case := mkCase {
   c_root : nat;
   c_single : N;                   (* fingerprint of the equivalent single-document client *)
   c_joins : list (nat * str * str);   (* base, location, urllib's answer *)
+  c_names : list N;               (* keys of wsdl.messages / port_types / bindings of the clean load *)
+  c_decls : list qn;              (* keys of wsdl.schema.elements / types of the clean load *)
   c_obs : list obs }.
 
 Definition url_of (c : case) (k : nat) : str := nth k (c_urls c) [].
@@ -158,3 +160,24 @@ Fixpoint retry_steps (clean : N) (after_fault : bool) (os : list obs) : bool :=
 Definition c12_retry_ok (c : case) : bool := retry_steps (first_fp c) false (c_obs c).
 
 Definition c12_terminates_ok (c : case) : bool := no_oof c (c_obs c).
+
+(* the declarations the constructed client sees: the model's tables of the
+   root Definitions have the same keys as suds' (clean load, when it succeeds) *)
+Definition qn_eqb (a b : qn) : bool := optN_eqb (fst a) (fst b) && N.eqb (snd a) (snd b).
+Definition subset_b {A} (eqb : A -> A -> bool) (a b : list A) : bool :=
+  forallb (fun x => existsb (eqb x) b) a.
+
+Definition c12_decls_agree (c : case) : bool :=
+  match c_obs c with
+  | o :: _ =>
+      if N.eqb (o_class o) 0 then
+        match fst (load_root io (opn_c (world_of c None)) (docs_of (world_of c None))
+                             (url_of c (c_root c)) io0) with
+        | Ok s => let '(ns, ds) := collected (url_of c (c_root c)) s in
+                  subset_b N.eqb ns (c_names c) && subset_b N.eqb (c_names c) ns
+                  && subset_b qn_eqb ds (c_decls c) && subset_b qn_eqb (c_decls c) ds
+        | _ => false
+        end
+      else true
+  | [] => true
+  end.
